@@ -212,3 +212,39 @@ T('C07', 'pad-ceil', 'proximity.py', "pad_y = int(max_distance / cellsize_y + 0.
 T('C07', 'pad-plus-one', 'proximity.py', "pad_x = int(max_distance / cellsize_x + 0.5)", "pad_x = int(max_distance / cellsize_x + 1)")
 T('C18', 'trim-cols-within-rows', 'zonal.py', "        left = x\n        for y in range(rows):", "        left = x\n        for y in range(top, bottom + 1):")
 M('C18', 'trim-cols-within-rows-short', 'zonal.py', "        left = x\n        for y in range(rows):", "        left = x\n        for y in range(top, bottom):", 'T2-line')
+
+# ------------------------------------------------------------------------------------------------ C02 / C03 / C04 (zonal)
+M('C04', 'cat-cursor-under-if', 'zonal.py', "            crosstab_dict[cat].append(count)\n        cat_start = zone_cat_breaks[j]", "            crosstab_dict[cat].append(count)\n            cat_start = zone_cat_breaks[j]", 'Z1')
+M('C02', 'stats-cursor-under-if', 'zonal.py', "            if len(zone_values) > 0:\n                results[i] = func(zone_values)\n        start = end", "            if len(zone_values) > 0:\n                results[i] = func(zone_values)\n            start = end", 'Z1')
+M('C04', 'crosstab-label-request-order', 'zonal.py', "        zone_ids = [z for z in unique_zones if z in zone_ids]", "        zone_ids = [z for z in zone_ids if z in unique_zones]", 'Z2')
+M('C03', 'dask-select-ids-swapped', 'zonal.py', "        zone_ids = _select_ids(zone_ids, unique_zones)", "        zone_ids = _select_ids(unique_zones, zone_ids)", 'Z2')
+M('C02', 'stats-label-unsorted', 'zonal.py', "        zone_ids = np.unique(zone_ids)\n", "        zone_ids = list(zone_ids)\n", 'Z2')
+M('C02', 'filter-no-nodata', 'zonal.py', "            zone_values = zone_values[np.isfinite(zone_values) & (zone_values != nodata_values)]", "            zone_values = zone_values[np.isfinite(zone_values)]", 'Z3')
+M('C02', 'filter-isnan-only', 'zonal.py', "            zone_values = zone_values[np.isfinite(zone_values) & (zone_values != nodata_values)]", "            zone_values = zone_values[~np.isnan(zone_values) & (zone_values != nodata_values)]", 'Z3')
+M('C04', 'crosstab3d-filter-dropped', 'zonal.py', "            zone_cat_data = zone_cat_data[\n                np.isfinite(zone_cat_data)\n                & (zone_cat_data != nodata_values)\n            ]\n", "", 'Z3')
+M('C04', 'findcats-no-finite', 'zonal.py', "            np.isfinite(values.data) & (values.data != nodata_values)\n", "            (values.data != nodata_values)\n", 'Z3')
+M('C02', 'unique-zones-nonfinite', 'zonal.py', "    unique_zones = np.unique(zones[np.isfinite(zones)])\n    # selected zones to do analysis\n    if zone_ids is None:\n        zone_ids = unique_zones\n    else:\n        zone_ids = np.unique(zone_ids)", "    unique_zones = np.unique(zones)\n    # selected zones to do analysis\n    if zone_ids is None:\n        zone_ids = unique_zones\n    else:\n        zone_ids = np.unique(zone_ids)", 'Z4')
+M('C02', 'index-space-values-unfiltered', 'zonal.py', "    sorted_indices = sorted_indices[np.isfinite(sorted_zones)]\n", "", 'Z4b')
+M('C02', 'results-zero-init', 'zonal.py', "    results = np.full(unique_zones.shape, np.nan)", "    results = np.zeros(unique_zones.shape)", 'Z5')
+M('C02', 'empty-guard-removed', 'zonal.py', "            if len(zone_values) > 0:\n                results[i] = func(zone_values)", "            if True:\n                results[i] = func(zone_values)", 'Z5')
+M('C02', 'default-std-is-var', 'zonal.py', "    std=lambda z: z.std(),\n    var=lambda z: z.var(),\n    count", "    std=lambda z: z.var(),\n    var=lambda z: z.var(),\n    count", 'ZT')
+M('C02', 'strides-bound-after', 'zonal.py', "        while (count < num_elements) and (\n                flatten_zones[count] == unique_zones[i]):", "        while (flatten_zones[count] == unique_zones[i]) and (\n                count < num_elements):", 'ZS')
+M('C02', 'scatter-first-zone', 'zonal.py', "                    zs = sorted_indices[zone_breaks[iz-1]: zone_breaks[iz]]", "                    zs = sorted_indices[zone_breaks[iz-1] + 1: zone_breaks[iz]]", 'Z-scatter')
+M('C03', 'merge-max-by-nanmin', 'zonal.py', "    max=lambda block_maxes: np.nanmax(block_maxes, axis=0),", "    max=lambda block_maxes: np.nanmin(block_maxes, axis=0),", 'Z6a')
+M('C03', 'merge-sumsq-nanmax', 'zonal.py', "    sum_squares=lambda block_sum_squares: _nansum_or_nan(block_sum_squares),", "    sum_squares=lambda block_sum_squares: np.nanmax(block_sum_squares, axis=0),", 'Z6a')
+M('C03', 'merge-axis-1', 'zonal.py', "    min=lambda block_mins: np.nanmin(block_mins, axis=0),", "    min=lambda block_mins: np.nanmin(block_mins, axis=1),", 'Z6a')
+M('C03', 'merge-plain-nansum', 'zonal.py', "    count=lambda block_counts: _nansum_or_nan(block_counts),", "    count=lambda block_counts: np.nansum(block_counts, axis=0),", 'Z6c')
+M('C03', 'sumsq-raw-dtype', 'zonal.py', "    sum_squares=lambda z: (z.astype(np.float64)**2).sum()", "    sum_squares=lambda z: (z**2).sum()", 'Z6d')
+M('C03', 'dask-var-no-n', 'zonal.py', "def _dask_var(sum_squares, squared_sum, n): return (sum_squares - squared_sum/n) / n  # noqa", "def _dask_var(sum_squares, squared_sum, n): return (sum_squares - squared_sum) / n  # noqa", 'Z6b')
+M('C03', 'dask-std-args-swapped', 'zonal.py', "        stats_dict['std'] = _dask_std(\n            stats_dict['sum_squares'], stats_dict['sum'] ** 2, stats_dict['count']", "        stats_dict['std'] = _dask_std(\n            stats_dict['sum'] ** 2, stats_dict['sum_squares'], stats_dict['count']", 'Z6b')
+M('C03', 'per-block-unique', 'zonal.py', "    _, values_by_zones, zone_breaks = _sort_and_stride(zones_block, values_block, unique_zones)\n    results = _calc_stats(", "    unique_zones = np.unique(zones_block[np.isfinite(zones_block)])\n    _, values_by_zones, zone_breaks = _sort_and_stride(zones_block, values_block, unique_zones)\n    results = _calc_stats(", 'Z7')
+M('C03', 'merge-skip-total', 'zonal.py', "        for k in crosstab_by_block[i]:\n            result[k] += crosstab_by_block[i][k]", "        for k in cat_ids:\n            result[k] += crosstab_by_block[i][k]", 'Z8')
+M('C03', 'merge-from-2', 'zonal.py', "    for i in range(1, len(crosstab_by_block)):", "    for i in range(2, len(crosstab_by_block)):", 'Z8')
+M('C03', 'alignment-removed-2d', 'zonal.py', "    elif isinstance(values.data, da.Array):\n        # 2D dask case, make sure `values` blocks line up with `zones` blocks\n        validate_arrays(zones, values)\n", "", 'Z9')
+M('C03', 'stats-no-validate', 'zonal.py', "    validate_arrays(zones, values)\n\n    if not (\n        issubclass(zones.data.dtype.type, np.integer)", "    if not (\n        issubclass(zones.data.dtype.type, np.integer)", 'Z9')
+M('C04', 'count-wrong-key', 'zonal.py', "            crosstab_dict[cat].append(count)\n        cat_start", "            crosstab_dict[j].append(count)\n        cat_start", 'X-key')
+M('C04', 'pct-times-1', 'zonal.py', "            crosstab_dict[cat] = crosstab_dict[cat] / crosstab_dict[TOTAL_COUNT] * 100  # noqa", "            crosstab_dict[cat] = crosstab_dict[cat] / crosstab_dict[TOTAL_COUNT]  # noqa", 'Z8-pct')
+M('C04', 'agg-fixed-count', 'zonal.py', "crosstab_dict, _DEFAULT_STATS[agg]  # noqa", "crosstab_dict, _DEFAULT_STATS['count']  # noqa", 'X-agg')
+T('C02', 'filter-conjuncts-swapped', 'zonal.py', "            zone_values = zone_values[np.isfinite(zone_values) & (zone_values != nodata_values)]", "            zone_values = zone_values[(zone_values != nodata_values) & np.isfinite(zone_values)]")
+T('C03', 'var-rearranged', 'zonal.py', "def _dask_var(sum_squares, squared_sum, n): return (sum_squares - squared_sum/n) / n  # noqa", "def _dask_var(sum_squares, squared_sum, n): return sum_squares / n - squared_sum / (n * n)  # noqa")
+T('C04', 'cursor-before-if', 'zonal.py', "    for j, cat in enumerate(unique_cats):\n        if cat in cat_ids:\n            count = zone_cat_breaks[j] - cat_start\n            crosstab_dict[cat].append(count)\n        cat_start = zone_cat_breaks[j]", "    for j, cat in enumerate(unique_cats):\n        prev = cat_start\n        cat_start = zone_cat_breaks[j]\n        if cat in cat_ids:\n            count = zone_cat_breaks[j] - prev\n            crosstab_dict[cat].append(count)")
